@@ -142,6 +142,13 @@ func loadKnown(prop string) []string {
 	return out
 }
 
+var knownSigs []string
+
+// IsKnown reports whether sig is listed as a known (recorded, unrepaired)
+// finding of the property being checked.  Engines whose runs can trip over a
+// known finding use it to keep looking for other violations in the same run.
+func IsKnown(sig string) bool { return matchKnown(knownSigs, sig) }
+
 func matchKnown(known []string, sig string) bool {
 	for _, k := range known {
 		if k == sig {
@@ -195,6 +202,19 @@ func safeRun(p *Prop, tape *Tape) (out *Outcome) {
 	return out
 }
 
+// noteCurrent records the case about to run, when the driver asked for it
+// (VERIF_CRASH_FILES=1): a panic on a goroutine the harness cannot recover
+// kills the process, and the driver then reports this file as the replay.
+func noteCurrent(p *Prop, outDir string, worker int, rp *Replay) {
+	if os.Getenv("VERIF_CRASH_FILES") == "" {
+		return
+	}
+	rp.Property, rp.Engine = p.ID, p.Engine
+	rp.Signature = p.ID + ":process-crash"
+	rp.Message = "the process died while this case was running (panic on a goroutine of the system under test, fatal runtime error or stack overflow)"
+	rp.Write(filepath.Join(outDir, fmt.Sprintf("current-%d.json", worker)))
+}
+
 // Stack returns the current goroutine's stack (for recovered panics).
 func Stack() string { return string(debug.Stack()) }
 
@@ -233,6 +253,7 @@ func WorkerMain(t *testing.T, props map[string]*Prop) {
 		os.Exit(3)
 	}
 	startWatchdog()
+	knownSigs = loadKnown(id)
 	debug.SetGCPercent(400)
 	outDir := os.Getenv("VERIF_OUT")
 	if outDir == "" {
@@ -323,6 +344,7 @@ func WorkerMain(t *testing.T, props map[string]*Prop) {
 		for _, l := range p.PinBase {
 			tape.Pin(l)
 		}
+		noteCurrent(p, outDir, worker, &Replay{Seed: caseSeed, Generate: true, Pin: p.PinBase})
 		o := safeRun(p, tape)
 		rep.BaseCases++
 		account(o, tape)
@@ -337,6 +359,7 @@ func WorkerMain(t *testing.T, props map[string]*Prop) {
 				break
 			}
 			st := NewReplayTape(caseSeed, sub)
+			noteCurrent(p, outDir, worker, &Replay{Seed: caseSeed, Tape: sub})
 			so := safeRun(p, st)
 			account(so, st)
 			handle(so, caseSeed, idx, st.Record())
@@ -370,6 +393,8 @@ func writeJSON(path string, v any) {
 func reportViolation(p *Prop, o *Outcome, caseSeed, idx uint64, rec map[string][]uint64, dir string, shrink bool) workerViolation {
 	sig := o.Violation.Signature
 	same := func(c map[string][]uint64) bool {
+		// A candidate of the minimiser may itself kill the process.
+		noteCurrent(p, os.Getenv("VERIF_OUT"), envInt("VERIF_WORKER", 0), &Replay{Seed: caseSeed, Tape: c})
 		r := safeRun(p, NewReplayTape(caseSeed, c))
 		return r.Violation != nil && r.Violation.Signature == sig
 	}
@@ -424,8 +449,23 @@ func replayMain(p *Prop, path, outDir string) {
 		fmt.Fprintln(os.Stderr, err)
 		os.Exit(3)
 	}
-	o := safeRun(p, NewReplayTape(rp.Seed, rp.Tape))
+	tape := NewReplayTape(rp.Seed, rp.Tape)
+	if rp.Generate {
+		tape = NewTape(rp.Seed)
+		for _, l := range rp.Pin {
+			tape.Pin(l)
+		}
+	}
+	o := safeRun(p, tape)
 	rep := &workerReport{Property: p.ID, Evaluations: 1, GoVersion: runtime.Version()}
+	if o.Desc != nil {
+		if b, err := json.Marshal(o.Desc); err == nil {
+			fmt.Printf("CASE %s\n", b)
+		}
+	}
+	for _, l := range o.Trace {
+		fmt.Printf("TRACE %s\n", l)
+	}
 	if o.Violation != nil {
 		rep.Replayed = &workerViolation{Signature: o.Violation.Signature, Message: o.Violation.Message, Replay: path,
 			Seed: rp.Seed, Exact: o.Violation.Signature == rp.Signature}
